@@ -120,6 +120,11 @@ class ValidIdx:
         self.prog, self.an = ctx.prog, ctx.an
         self.F = fw_fns(self.prog)
         self.param_valid = {n: None for n in ('transition', 'update_counter', 'schedule_action', 'decrement_limit')}
+        # the limit predicates, when they are handed the machine index instead of its runtime/machine references
+        for n in ('below_action_limits', 'below_limit_blocking', 'below_limit_padding'):
+            f = self.F.get(n)
+            if f is not None and len(f.inputs) >= 2 and f.inputs[1] == 'usize':
+                self.param_valid[n] = None
         self.allexcept_valid = None
         self._pf = {}
         self.fixpoint()
@@ -330,6 +335,36 @@ def regular_typestate(ctx, fn, entry_regular):
 REGULAR_PRE = ('update_counter', 'below_action_limits', 'below_limit_blocking', 'below_limit_padding', 'decrement_limit')
 
 
+def state_param_regular(ctx, F, fn, pi, depth=0):
+    """every call site of fn among the framework's step functions passes, as argument pi, the payload of sample_state on a path
+    that excluded the END pseudo state, or the caller's own state parameter with the same guarantee"""
+    prog, an = ctx.prog, ctx.an
+    if depth > 3:
+        return False
+    end = prog.const_val('maybenot::constants::STATE_END')
+    n = 0
+    for caller in F.values():
+        ca_ = an.get(caller)
+        for (cb, cf, ca, ct) in calls(ca_):
+            if callee_key(cf) != fn.key:
+                continue
+            n += 1
+            if pi - 1 >= len(ca):
+                return False
+            a = ca[pi - 1]
+            if next_state_payload(a):
+                pfh = an.paths(caller, history=True)
+                st = pfh.at_entry(cb)
+                if not (bool(st) and all(any(f2[0] == 'nec' and next_state_payload(f2[1]) and end in f2[2] for f2 in S) for S in st)):
+                    return False
+            elif a[0] == 'param' and caller.inputs[a[1] - 1:a[1]] == ['usize'] and a[1] >= 3:
+                if not state_param_regular(ctx, F, caller, a[1], depth + 1):
+                    return False
+            else:
+                return False
+    return n > 0
+
+
 # ---------------------------------------------------------------- main
 
 def check_C01(ctx, rep):
@@ -465,15 +500,9 @@ def check_C01(ctx, rep):
                             pfh = an.paths(fn, history=True)
                             st = pfh.at_entry(b)
                             ok = bool(st) and all(any(f2[0] == 'nec' and next_state_payload(f2[1]) and end in f2[2] and sig in f2[2] for f2 in S) for S in st)
-                        elif idx == ('param', 3) and name == 'schedule_action':
-                            # all call sites pass a regular next state
-                            ok = True
-                            for (cb, cf, ca, ct) in calls(an.get(F['transition'])):
-                                if callee_key(cf) == fn.key:
-                                    pfh = an.paths(F['transition'], history=True)
-                                    end = prog.const_val('maybenot::constants::STATE_END')
-                                    st = pfh.at_entry(cb)
-                                    ok = ok and next_state_payload(ca[2]) and bool(st) and all(any(f2[0] == 'nec' and next_state_payload(f2[1]) and end in f2[2] for f2 in S) for S in st)
+                        elif idx[0] == 'param' and idx[1] >= 3 and fn.inputs[idx[1] - 1:idx[1]] == ['usize']:
+                            # a state index parameter: all call sites (transitively) pass a regular next state
+                            ok = state_param_regular(ctx, F, fn, idx[1])
                         elif is_field(idx, 'current_state', 'MachineRuntime') and tsn is not None:
                             ok = tsn[1](b, len(bb['s']))
                         elif is_field(idx, 'current_state', 'MachineRuntime'):
